@@ -326,6 +326,20 @@ func send(t vt.TB, kit *bk.Kit, mm *gostatsd.MetricMap) {
 	}
 }
 
+// sendDropped sends a flush that the endpoint refuses (500) for as long as the backend keeps trying; the outcome is ignored.
+func sendDropped(kit *bk.Kit, mm *gostatsd.MetricMap) {
+	kit.RT.Reset()
+	kit.RT.Script = func(a *fakes.Attempt) fakes.Reply { return fakes.Reply{Status: 500} }
+	done := make(chan struct{}, 2)
+	ctx, cancel := context.WithTimeout(context.Background(), 30*time.Millisecond) // the flush's own deadline ends the back-off
+	defer cancel()
+	go kit.Backend.SendMetricsAsync(ctx, mm, func([]error) { done <- struct{}{} })
+	select {
+	case <-done:
+	case <-time.After(30 * time.Second):
+	}
+}
+
 func flushMap(t *rapid.T, c cfg, idle bool) *gostatsd.MetricMap {
 	agg := statsd.NewMetricAggregator(c.pcts, 0, 0, 0, 0, c.mask, c.limit)
 	pts := rapid.SliceOfN(datapointGen(), 1, 24).Draw(t, "datapoints")
@@ -423,6 +437,9 @@ func TestPayloadsCarryEverySeriesOnce(t *testing.T) {
 		masked := c.mask != (gostatsd.TimerSubtypes{})
 		// the flusher hands one and the same map to every configured backend, one after the other: in half of the cases the
 		// backends here get one shared map too, in a drawn order (what one backend does to it, the next one sees)
+		afterDropped := rapid.IntRange(0, 5).Draw(t, "after-a-dropped-flush") == 0
+		afterDroppedRounds := rapid.IntRange(0, 4).Draw(t, "flushes-since-the-dropped-one")
+		dropMap := gen.MapFromMetrics([]*gostatsd.Metric{{Name: "dropped.before", Type: gostatsd.GAUGE, Value: 99, Rate: 1, Tags: gostatsd.Tags{"stale:1"}}})
 		order := append([]string(nil), httpChecked...)
 		var shared *gostatsd.MetricMap
 		if rapid.Bool().Draw(t, "backends-share-the-flushed-map") {
@@ -430,9 +447,22 @@ func TestPayloadsCarryEverySeriesOnce(t *testing.T) {
 			order = rapid.Permutation(order).Draw(t, "backend-order")
 		}
 		for _, name := range order {
-			kit, err := bk.New(variant(name), bk.Options{Batch: c.batch, Compress: c.compress, Disabled: c.mask, ResourceKeys: c.resourceKeys})
+			opts := bk.Options{Batch: c.batch, Compress: c.compress, Disabled: c.mask, ResourceKeys: c.resourceKeys}
+			dropFirst := afterDropped && (strings.HasPrefix(name, "datadog") || strings.HasPrefix(name, "influxdb") || strings.HasPrefix(name, "newrelic"))
+			if dropFirst {
+				opts.MaxElapsed = "1ms"
+			}
+			kit, err := bk.New(variant(name), opts)
 			if err != nil {
 				t.Fatalf("%v", err)
+			}
+			if dropFirst {
+				// an earlier flush of this backend was given up (the endpoint answered 500 throughout its retry window), and a few
+				// ordinary flushes went through since: the payloads of the flush under test are its own all the same
+				sendDropped(kit, dropMap)
+				for i := 0; i < afterDroppedRounds; i++ {
+					send(t, kit, gen.CopyMapSpare(mm))
+				}
 			}
 			if shared != nil {
 				send(t, kit, shared)
